@@ -49,9 +49,11 @@ def use_repo() -> str:
 
 @dataclass
 class BuildStatus:
-    gen_ok: bool = True
+    gen_ok: bool = True          # no translation error in a generated file this property's theorems use
     gen_changed: bool = False
     gen_error: str = ""
+    gen_errors: dict = field(default_factory=dict)   # generated file -> translation error (all files)
+    gen_deps: dict = field(default_factory=dict)     # theorem -> generated files its proof term depends on
     model_ok: bool = True
     model_log: str = ""
     proofs_ok: bool = True
@@ -120,6 +122,51 @@ def grep_forbidden() -> list:
     return hits
 
 
+GENDEP_PRELUDE = r"""
+open Lean Elab Command in
+partial def genDepsAux (env : Environment) : List Name → NameSet → NameSet → NameSet
+  | [], _, out => out
+  | n :: rest, seen, out =>
+    if seen.contains n then genDepsAux env rest seen out else
+    let seen := seen.insert n
+    let out := if (`Optyx.Generated).isPrefixOf n then out.insert n else out
+    if !(`Optyx).isPrefixOf n then genDepsAux env rest seen out else
+    match env.find? n with
+    | none => genDepsAux env rest seen out
+    | some ci =>
+      let cs := ci.type.getUsedConstants.toList ++ (match ci.value? (allowOpaque := true) with | some v => v.getUsedConstants.toList | none => [])
+      let cs := match ci with
+        | .inductInfo i => cs ++ i.ctors
+        | _ => cs
+      genDepsAux env (cs ++ rest) seen out
+
+open Lean Elab Command in
+elab "#gendeps " id:ident : command => do
+  let env ← getEnv
+  let n ← liftCoreM <| realizeGlobalConstNoOverloadWithInfo id
+  let gs := (genDepsAux env [n] {} {}).toList
+  let mods := gs.filterMap fun g => (env.getModuleIdxFor? g).map fun i => env.header.moduleNames[i.toNat]!
+  let mods := mods.eraseDups
+  logInfo m!"GENDEP {id.getId} :{String.join (mods.map fun m => " " ++ toString m)}"
+"""
+
+
+def import_closure_generated(mod: str) -> set:
+    """generated files in the transitive import closure of a module (coarse fallback)"""
+    seen, todo, out = set(), [mod], set()
+    while todo:
+        m = todo.pop()
+        if m in seen:
+            continue
+        seen.add(m)
+        if m.startswith("Optyx.Generated."):
+            out.add(m.split(".")[-1])
+        p = os.path.join(LEAN_DIR, m.replace(".", "/") + ".lean")
+        if os.path.exists(p):
+            todo += [x for x in re.findall(r"^import\s+(\S+)", open(p).read(), re.M) if x.startswith("Optyx")]
+    return out
+
+
 def lean_prepare(prop_module: str, theorems: list[str], _attempt: int = 0) -> BuildStatus:
     """regenerate Generated/*, build the executable model, build the property's proofs,
     audit axioms.  Never raises on a failed build: the status says what broke."""
@@ -127,24 +174,25 @@ def lean_prepare(prop_module: str, theorems: list[str], _attempt: int = 0) -> Bu
     t0 = time.time()
     gen_cmd = [sys.executable, os.path.join(VERIF, "harness", "gen_tables.py"), REPO,
                os.path.join(LEAN_DIR, "Optyx", "Generated")]
+    def last_json(out):
+        try:
+            return json.loads(out.strip().splitlines()[-1])
+        except Exception:
+            return None
+
     TreeLock.acquire(fcntl.LOCK_SH)
     rc, out = _run(gen_cmd + ["--dry"])
-    try:
-        would_change = rc == 0 and json.loads(out.strip().splitlines()[-1]).get("changed", False)
-    except Exception:
-        would_change = False
+    would_change = bool((last_json(out) or {}).get("changed", False))
     if would_change:
         TreeLock.acquire(fcntl.LOCK_EX)  # waits for every other running check to finish
     with LeanLock():
         rc, out = _run(gen_cmd)
-        if rc != 0:
-            st.gen_ok = False
-            st.gen_error = out.strip()[-2000:]
+        info = last_json(out)
+        if info is None:
+            st.gen_errors = {"*": out.strip()[-2000:]}
         else:
-            try:
-                st.gen_changed = json.loads(out.strip().splitlines()[-1]).get("changed", False)
-            except Exception:
-                pass
+            st.gen_changed = info.get("changed", False)
+            st.gen_errors = info.get("errors", {})
         rc, out = _run(["lake", "build", "Optyx.Drive.All"], cwd=LEAN_DIR)
         st.model_ok = rc == 0
         st.model_log = out[-4000:] if rc != 0 else ""
@@ -159,7 +207,8 @@ def lean_prepare(prop_module: str, theorems: list[str], _attempt: int = 0) -> Bu
             st.proofs_ok = False
         st.grep_hits = grep_forbidden()
         if st.proofs_ok and theorems:
-            src = f"import {prop_module}\n" + "\n".join(f"#print axioms {t}" for t in theorems) + "\n"
+            src = (f"import Lean\nimport {prop_module}\n" + "\n".join(f"#print axioms {t}" for t in theorems) + "\n"
+                   + GENDEP_PRELUDE + "\n".join(f"#gendeps {t}" for t in theorems) + "\n")
             tmp = os.path.join(LEAN_DIR, f".audit_{prop_module.split('.')[-1]}_{os.getpid()}.lean")
             open(tmp, "w").write(src)
             try:
@@ -171,12 +220,25 @@ def lean_prepare(prop_module: str, theorems: list[str], _attempt: int = 0) -> Bu
                 st.axioms[m.group(1)] = [a.strip() for a in m.group(2).split(",") if a.strip()]
             for m in re.finditer(r"'([^']+)' does not depend on any axioms", out):
                 st.axioms[m.group(1)] = []
+            for m in re.finditer(r"GENDEP (\S+) :([^\n]*)", out):
+                st.gen_deps[m.group(1)] = sorted({x.split(".")[-1] for x in m.group(2).split()})
             missing = [t for t in theorems if t not in st.axioms]
             bad = {t: a for t, a in st.axioms.items() if set(a) - ALLOWED_AXIOMS}
             st.axioms_ok = not missing and not bad and rc == 0
             if missing:
                 st.proofs_log += f"\naudit: theorems not found: {missing}\n{out[-1500:]}"
             st.discharged = len([t for t in theorems if t in st.axioms and not (set(st.axioms[t]) - ALLOWED_AXIOMS)])
+    # which generated files does this property stand on?  (exactly: the ones its proof terms mention;
+    # when the proofs did not build, the import closure of the property module)
+    used = set()
+    if st.gen_deps and all(t in st.gen_deps for t in theorems):
+        for t in theorems:
+            used |= set(st.gen_deps[t])
+    else:
+        used = import_closure_generated(prop_module)
+    hit = {f: e for f, e in st.gen_errors.items() if f == "*" or f in used}
+    st.gen_ok = not hit
+    st.gen_error = "; ".join(f"{f}: {e}" for f, e in sorted(hit.items()))
     if would_change:
         # back to shared for the rest of the process; the conversion is not atomic, so make sure
         # nobody rewrote the generated files in between
@@ -271,7 +333,9 @@ def write_evidence(prop: str, tier: str, seed: int, st: BuildStatus, rep: Report
         "checker_cmd": checker_cmd,
         "trusted_base": TRUSTED_BASE + [f"axioms of {t}: {a}" for t, a in sorted(st.axioms.items())],
         "theorems": st.theorems,
-        "lean_build": {"generated_changed": st.gen_changed, "model_ok": st.model_ok, "proofs_ok": st.proofs_ok,
+        "lean_build": {"generated_changed": st.gen_changed,
+                       "generated_files_used_by_theorems": sorted({f for fs in st.gen_deps.values() for f in fs}),
+                       "translation_errors": st.gen_errors, "model_ok": st.model_ok, "proofs_ok": st.proofs_ok,
                        "axioms_ok": st.axioms_ok, "forbidden_tokens": st.grep_hits,
                        "failed_modules": st.failed_modules, "wall_s": round(st.wall_s, 2)},
         "evaluations": rep.evaluations,
